@@ -61,6 +61,9 @@ pub struct Model {
     pub orphans: BTreeMap<[u8; 32], u32>,
     pub rewinds: u32,
     pub roots_put: bool,
+    /// C15: the scan queue as the pointwise reference sees it, height -> priority index
+    /// (0 Ignored .. 6 Verify); None until the first tracked operation (and when not tracked).
+    pub queue: Option<BTreeMap<u32, u8>>,
 }
 
 impl Model {
@@ -207,6 +210,7 @@ pub fn canon(conn: &rusqlite::Connection) -> Vec<u8> {
 // Transition function: run the op on the real wallet, update the reference model
 // ---------------------------------------------------------------------------------------------
 
+#[derive(Clone)]
 pub enum StepResult {
     /// The wallet performed the operation; new model.
     Done(Model),
@@ -236,7 +240,211 @@ fn pruning_floor(w: &Wallet, cp_sets: &[BTreeSet<u32>]) -> u32 {
     floor
 }
 
+/// Set by the C15 check: every operation's effect on the scan queue is compared, height by height,
+/// with the documented insertions of that operation applied through the documented dominance rule.
+pub static TRACK_QUEUE_PRIORITIES: std::sync::atomic::AtomicBool = std::sync::atomic::AtomicBool::new(false);
+
+thread_local! {
+    /// height `truncate_to_height` reported in the last Rewind on this thread
+    static LAST_TRUNCATION: std::cell::Cell<u32> = const { std::cell::Cell::new(0) };
+}
+
+const PRIO_NAMES: [&str; 7] = ["Ignored", "Scanned", "Historic", "OpenAdjacent", "FoundNote", "ChainTip", "Verify"];
+const P_S: u8 = 1;
+const P_H: u8 = 2;
+const P_F: u8 = 4;
+const P_C: u8 = 5;
+const P_V: u8 = 6;
+
+/// The wallet's scan queue expanded to height -> priority index.
+fn read_queue(w: &Wallet) -> BTreeMap<u32, u8> {
+    let conn = w.db.conn();
+    let mut st = conn.prepare("SELECT block_range_start, block_range_end, priority FROM scan_queue ORDER BY block_range_start").unwrap();
+    let rows: Vec<(u32, u32, i64)> = st.query_map([], |r| Ok((r.get::<_, u32>(0)?, r.get::<_, u32>(1)?, r.get::<_, i64>(2)?))).unwrap().map(|x| x.unwrap()).collect();
+    let mut q = BTreeMap::new();
+    for (s, e, p) in rows {
+        for h in s..e {
+            q.insert(h, (p / 10) as u8);
+        }
+    }
+    q
+}
+
+/// Pointwise insertion of `range` (half-open) with priority `p`: the documented dominance table on
+/// covered heights, the inserted priority on uncovered ones, Historic in a gap between the queue and
+/// a disjoint insertion.
+fn ref_insert(q: &mut BTreeMap<u32, u8>, range: std::ops::Range<u32>, p: u8, force: bool) {
+    if range.is_empty() {
+        return;
+    }
+    if let (Some(lo), Some(hi)) = (q.keys().next().copied(), q.keys().next_back().copied()) {
+        for h in hi + 1..range.start {
+            q.insert(h, P_H);
+        }
+        for h in range.end..lo {
+            q.insert(h, P_H);
+        }
+    }
+    for h in range {
+        let v = match q.get(&h) {
+            Some(cur) => crate::c15::spanning::RULE[force as usize][*cur as usize][p as usize],
+            None => p,
+        };
+        q.insert(h, v);
+    }
+}
+
+fn show_queue(q: &BTreeMap<u32, u8>) -> String {
+    let mut out: Vec<(u32, u32, u8)> = vec![];
+    for (h, p) in q {
+        match out.last_mut() {
+            Some(l) if l.2 == *p && l.1 == *h => l.1 = h + 1,
+            _ => out.push((*h, h + 1, *p)),
+        }
+    }
+    out.iter().map(|(s, e, p)| format!("{s}..{e} {}", PRIO_NAMES[*p as usize])).collect::<Vec<_>>().join(", ")
+}
+
+/// What the queue must look like after `op`, from the queue before it and facts read from the
+/// database BEFORE the operation ran (`pre`): the insertions each wallet operation documents
+/// (scanning.rs: `scan_complete`, `update_chain_tip`; wallet.rs: `trim_scan_queue_to`,
+/// `rewind_to_chain_state`), applied pointwise.
+struct QueuePre {
+    q: BTreeMap<u32, u8>,
+    /// min over the pools that have shard metadata of MAX(subtree_end_height)
+    min_shard_tip: Option<u32>,
+    max_scanned: Option<u32>,
+    /// per pool: MIN(checkpoint_id) >= max(target, pruning floor), for RewindState
+    checkpoints: Vec<BTreeSet<u32>>,
+}
+
+fn queue_pre(w: &Wallet, m: &Model) -> QueuePre {
+    let conn = w.db.conn();
+    let mut tips = vec![];
+    for p in POOLS {
+        if let Some(r) = db::query_rows(conn, &format!("SELECT MAX(subtree_end_height) FROM {}_tree_shards", p.prefix())).first() {
+            if let Ok(h) = r.parse::<u32>() {
+                tips.push(h);
+            }
+        }
+    }
+    QueuePre {
+        q: m.queue.clone().unwrap_or_else(|| read_queue(w)),
+        min_shard_tip: tips.into_iter().min(),
+        max_scanned: db::query_rows(conn, "SELECT MAX(height) FROM blocks").first().and_then(|r| r.parse::<u32>().ok()),
+        checkpoints: POOLS.iter().map(|p| checkpoint_ids(w, *p)).collect(),
+    }
+}
+
+fn expected_queue(u: &Universe, op: &Op, pre: &QueuePre) -> Option<BTreeMap<u32, u8>> {
+    let mut q = pre.q.clone();
+    let birthday = u.first;
+    match op {
+        Op::Scan { from, to } => ref_insert(&mut q, *from..*to + 1, P_S, false),
+        Op::Tip { h } => {
+            // update_chain_tip: nothing when the tip is below what is already scanned
+            if pre.max_scanned.map_or(false, |ms| *h < ms) {
+                return Some(q);
+            }
+            let chain_end = *h + 1;
+            // "a scanning range for the fragment of the last shard leading up to new tip", lower
+            // bound at the wallet birthday
+            let shard_entry = pre.min_shard_tip.filter(|s| *s < chain_end).map(|s| if birthday > s { birthday } else { s }..chain_end);
+            let (tip_range, tip_prio) = match pre.max_scanned {
+                // "mark all blocks between [the birthday] and the chain tip as Historic"
+                None => (birthday..chain_end, P_H),
+                Some(ms) => {
+                    let min_unscanned = ms + 1;
+                    if shard_entry.is_none() {
+                        // no shard metadata: linear scanning
+                        (min_unscanned..chain_end, P_H)
+                    } else {
+                        let stable = h.saturating_sub(100);
+                        if ms > stable {
+                            (min_unscanned..chain_end, P_C)
+                        } else {
+                            // "prioritize the VERIFY_LOOKAHEAD blocks above the max scanned height as
+                            // Verify ... at most the stable region ... If max_scanned == stable_height
+                            // then this is a zero-length range"
+                            (min_unscanned..(stable + 1).min(min_unscanned + 10), P_V)
+                        }
+                    }
+                }
+            };
+            if let Some(se) = shard_entry {
+                ref_insert(&mut q, se, P_C, false);
+            }
+            ref_insert(&mut q, tip_range, tip_prio, false);
+        }
+        Op::Rewind { .. } => {
+            // trim_scan_queue_to(achieved height): everything above it is dropped
+            let r = LAST_TRUNCATION.with(|c| c.get());
+            q.retain(|h, _| *h <= r);
+        }
+        Op::RewindState { h } => {
+            let tip = pre.q.keys().next_back().copied();
+            if let Some(ms) = pre.max_scanned.filter(|ms| *h < *ms) {
+                let floor = ms.saturating_sub(99);
+                let target = (*h).max(floor);
+                // "the deepest checkpoint at or above truncation_target retained by any pool"
+                let th = pre.checkpoints.iter().filter_map(|s| s.range(target..).next().copied()).min().unwrap_or(floor);
+                q.retain(|hh, _| *hh <= th);
+            }
+            // "Overwrite the scan-queue range above the rewind target with a Historic rescan range
+            // ... With force_rescans = true the only entries this preserves are those whose priority
+            // would dominate Historic even under a forced rescan"
+            if let Some(t) = tip.filter(|t| *h < *t) {
+                ref_insert(&mut q, *h + 1..t + 1, P_H, true);
+            }
+        }
+        Op::Roots | Op::Witness | Op::Client { .. } => return None,
+    }
+    Some(q)
+}
+
 pub fn apply(w: &mut Wallet, u: &Universe, m: &Model, op: &Op) -> Result<StepResult, String> {
+    // (a Client step is a Scan chosen from the wallet's suggestion: tracked through the inner call)
+    let track = TRACK_QUEUE_PRIORITIES.load(Ordering::Relaxed) && !matches!(op, Op::Client { .. });
+    let pre = if track { Some(queue_pre(w, m)) } else { None };
+    let r = apply_inner(w, u, m, op)?;
+    let (Some(pre), StepResult::Done(mut n)) = (pre, r.clone()) else { return Ok(r) };
+    let actual = read_queue(w);
+    if let Some(expected) = expected_queue(u, op, &pre) {
+        let heights: BTreeSet<u32> = expected.keys().chain(actual.keys()).copied().collect();
+        for h in heights {
+            let (e, a) = (expected.get(&h).copied(), actual.get(&h).copied());
+            if e == a {
+                continue;
+            }
+            // scan_complete may also raise unscanned heights around the scanned range to FoundNote
+            // (the blocks that complete the shards of discovered notes); which ones depends on shard
+            // metadata and is not modelled: accepted wherever FoundNote is what the dominance rule
+            // gives for that height.
+            if let (Op::Scan { from, to }, Some(a)) = (op, a) {
+                let outside = h < *from || h > *to;
+                let e0 = e.unwrap_or(P_F);
+                if outside && a == crate::c15::spanning::RULE[0][e0 as usize][P_F as usize] && a == P_F {
+                    continue;
+                }
+            }
+            return Err(format!(
+                "after {op:?} the scan queue gives height {h} priority {} but the documented insertions of the operation, applied pointwise through the dominance rule to the queue before it, give {}; queue before: [{}]; queue after: [{}]; expected: [{}]",
+                a.map_or("(none)", |x| PRIO_NAMES[x as usize]),
+                e.map_or("(none)", |x| PRIO_NAMES[x as usize]),
+                show_queue(&pre.q),
+                show_queue(&actual),
+                show_queue(&expected)
+            ));
+        }
+    }
+    if std::env::var("VERIF_DEBUG_QUEUE").is_ok() {
+        eprintln!("== {op:?}: before [{}]\n   after  [{}]", show_queue(&pre.q), show_queue(&actual));
+    }
+    n.queue = Some(actual);
+    Ok(StepResult::Done(n))
+}
+
+fn apply_inner(w: &mut Wallet, u: &Universe, m: &Model, op: &Op) -> Result<StepResult, String> {
     match op {
         Op::Roots => {
             use crate::universe::ShardRoot;
@@ -262,11 +470,11 @@ pub fn apply(w: &mut Wallet, u: &Universe, m: &Model, op: &Op) -> Result<StepRes
             Ok(StepResult::Done(n))
         }
         Op::Witness => {
-            let mined = mined_map(u, m);
+            let mined_ids = u.notes_created_in(m.chain, m.scanned.iter().copied());
             for p in POOLS {
                 let top: Option<u32> = db::query_rows(w.db.conn(), &format!("SELECT MAX(checkpoint_id) FROM {}_tree_checkpoints", p.prefix())).first().and_then(|r| r.parse().ok());
                 let Some(top) = top else { continue };
-                let notes: Vec<(u64, [u8; 32])> = u.notes.iter().filter(|n| n.pool == p && n.owner != Owner::Foreign && mined.contains_key(&n.txid)).map(|n| (n.position, n.cm)).collect();
+                let notes: Vec<(u64, [u8; 32])> = u.notes.iter().filter(|n| n.pool == p && n.owner != Owner::Foreign && mined_ids.contains(&n.id)).map(|n| (n.position, n.cm)).collect();
                 let got = caching_witness_roots(w, p, top, &notes)?;
                 // a path that is produced must verify against the chain's root at that checkpoint
                 if top + 1 != u.first && u.chains[m.chain].blocks.contains_key(&top) {
@@ -406,6 +614,7 @@ pub fn apply(w: &mut Wallet, u: &Universe, m: &Model, op: &Op) -> Result<StepRes
                 Ok(Err(e)) => Ok(StepResult::Refused(format!("{e:?}"))),
                 Ok(Ok(r)) => {
                     let r = u32::from(r);
+                    LAST_TRUNCATION.with(|c| c.set(r));
                     if r > *h {
                         return Err(format!("truncate_to_height({h}) reported truncation to {r} > requested"));
                     }
@@ -423,6 +632,12 @@ pub fn apply(w: &mut Wallet, u: &Universe, m: &Model, op: &Op) -> Result<StepRes
                         n.tip = Some(t.min(r));
                     }
                     n.rewinds += 1;
+                    // Subtree roots put for the old branch: the truncation lands inside (or before)
+                    // every shard the branches complete differently, so the wallet must have dropped
+                    // them; the roots of the new branch can be downloaded (put) afresh.
+                    if *switch != m.chain && completed_roots_differ(u, m.chain, *switch) {
+                        n.roots_put = false;
+                    }
                     n.chain = *switch;
                     Ok(StepResult::Done(n))
                 }
@@ -498,10 +713,7 @@ pub fn enabled(u: &Universe, cfg: &Cfg, m: &Model) -> Vec<Op> {
                     for (ci, c) in u.chains.iter().enumerate() {
                         // the other chain must share every block up to h with the current one
                         let shared = if ci == m.chain { u32::MAX } else { c.fork_height.min(u.chains[m.chain].fork_height) };
-                        // subtree roots supplied for one chain are not facts about a branch on which
-                        // those shards were completed with other leaves
-                        let stale_roots = m.roots_put && ci != m.chain && completed_roots_differ(u, m.chain, ci);
-                        if h <= shared && !stale_roots {
+                        if h <= shared {
                             ops.push(Op::Rewind { h, switch: ci });
                         }
                     }
@@ -557,6 +769,8 @@ pub fn check_balance(w: &mut Wallet, cx: &Ctx, m: &Model) -> Result<Vec<String>,
     let u = cx.u;
     let mut outcomes = vec![];
     let mined = mined_map(u, m);
+    // note records (one per place a transaction is mined at) whose block is scanned on this chain
+    let mined_ids = u.notes_created_in(m.chain, m.scanned.iter().copied());
     let sp = spenders(u);
     let target = m.tip.map(|t| t + 1);
     let unexpired = |txid: &[u8; 32]| -> bool {
@@ -583,11 +797,12 @@ pub fn check_balance(w: &mut Wallet, cx: &Ctx, m: &Model) -> Result<Vec<String>,
             continue;
         }
         let k = (acct_no(n.owner), n.pool);
-        let recv_mined = mined.contains_key(&n.txid);
-        let recv_orphan = unexpired(&n.txid);
+        let recv_mined = mined_ids.contains(&n.id);
+        // an orphaned transaction counts once, whatever the number of places it was mined at
+        let recv_orphan = n.remine_of.is_none() && unexpired(&n.txid);
         let empty = vec![];
-        let spent_mined = sp.get(&n.id).unwrap_or(&empty).iter().any(|t| mined.contains_key(t));
-        let spent_orphan = sp.get(&n.id).unwrap_or(&empty).iter().any(|t| unexpired(t));
+        let spent_mined = sp.get(&n.remine_of.unwrap_or(n.id)).unwrap_or(&empty).iter().any(|t| mined.contains_key(t));
+        let spent_orphan = sp.get(&n.remine_of.unwrap_or(n.id)).unwrap_or(&empty).iter().any(|t| unexpired(t));
         if recv_orphan || spent_orphan {
             any_unexpired_orphan = true;
         }
@@ -660,34 +875,45 @@ pub fn check_balance(w: &mut Wallet, cx: &Ctx, m: &Model) -> Result<Vec<String>,
     let conn = w.db.conn();
     for p in POOLS {
         let got_notes: BTreeSet<String> = db::query_rows(conn, &notes_sql(p, false)).into_iter().collect();
-        let mut want_notes = BTreeSet::new();
+        // A transaction mined in a scanned block of the current chain must be recorded with the
+        // position, nullifier and height it has THERE; one that is currently un-mined keeps the
+        // values of (one of) the places it was mined at before, with no mined height.
+        let mut required = BTreeSet::new();
+        let mut allowed = BTreeSet::new();
+        let mut rows_expected: BTreeSet<([u8; 32], usize)> = BTreeSet::new();
         for n in u.notes.iter().filter(|n| n.pool == p && n.owner != Owner::Foreign) {
             if m.seen.contains_key(&n.txid) {
                 let scope = match n.scope {
                     crate::universe::Scope::Internal => 1,
                     _ => 0,
                 };
-                let mh = mined.get(&n.txid).map(|h| h.to_string()).unwrap_or("NULL".into());
-                want_notes.insert(format!("'{}'|{}|{}|{}|'{}'|{}|{}|{}", txid_hex_le(&n.txid), n.output_index, acct_no(n.owner) + 1, n.value, hex::encode_upper(n.nf.bytes()), n.position, scope, mh));
+                rows_expected.insert((n.txid, n.output_index));
+                let row = |mh: String| format!("'{}'|{}|{}|{}|'{}'|{}|{}|{}", txid_hex_le(&n.txid), n.output_index, acct_no(n.owner) + 1, n.value, hex::encode_upper(n.nf.bytes()), n.position, scope, mh);
+                if mined_ids.contains(&n.id) {
+                    required.insert(row(n.height.to_string()));
+                } else if !mined.contains_key(&n.txid) {
+                    allowed.insert(row("NULL".into()));
+                }
             }
         }
-        if got_notes != want_notes {
-            let missing: Vec<_> = want_notes.difference(&got_notes).take(3).collect();
-            let extra: Vec<_> = got_notes.difference(&want_notes).take(3).collect();
-            return Err(format!("{p:?} received-note rows differ from ground truth: missing {:?} unexpected {:?}", missing, extra));
+        let ok = required.is_subset(&got_notes) && got_notes.iter().all(|r| required.contains(r) || allowed.contains(r)) && got_notes.len() == rows_expected.len();
+        if !ok {
+            let missing: Vec<_> = required.difference(&got_notes).take(3).collect();
+            let extra: Vec<_> = got_notes.iter().filter(|r| !required.contains(*r) && !allowed.contains(*r)).take(3).collect();
+            return Err(format!("{p:?} received-note rows differ from ground truth: missing {:?} unexpected {:?} ({} rows, {} expected)", missing, extra, got_notes.len(), rows_expected.len()));
         }
         // spends
         let got_sp: BTreeSet<String> = db::query_rows(conn, &spends_sql(p, false)).into_iter().collect();
         let mut required = BTreeSet::new();
         let mut allowed = BTreeSet::new();
         for n in u.notes.iter().filter(|n| n.pool == p && n.owner != Owner::Foreign && m.seen.contains_key(&n.txid)) {
-            for t in sp.get(&n.id).map(|v| v.as_slice()).unwrap_or(&[]) {
+            for t in sp.get(&n.remine_of.unwrap_or(n.id)).map(|v| v.as_slice()).unwrap_or(&[]) {
                 if let Some(h) = mined.get(t) {
                     let row = format!("'{}'|{}|'{}'|{}", txid_hex_le(&n.txid), n.output_index, txid_hex_le(t), h);
                     // required only when the receipt itself is mined in a scanned block: the wallet
                     // tracks nullifiers of mined notes only, so the spend of an orphaned receipt is
                     // linked when (if) the receipt is mined again.
-                    if mined.contains_key(&n.txid) {
+                    if mined_ids.contains(&n.id) {
                         required.insert(row.clone());
                     }
                     allowed.insert(row);
@@ -919,6 +1145,7 @@ pub fn check_trees(w: &mut Wallet, cx: &Ctx, m: &Model) -> Result<Vec<String>, S
     let u = cx.u;
     let mut outcomes = vec![];
     let mined = mined_map(u, m);
+    let mined_ids = u.notes_created_in(m.chain, m.scanned.iter().copied());
     let sp = spenders(u);
     let chain = &u.chains[m.chain];
     let mut cp_sets: Vec<BTreeSet<u32>> = vec![];
@@ -931,16 +1158,23 @@ pub fn check_trees(w: &mut Wallet, cx: &Ctx, m: &Model) -> Result<Vec<String>, S
     // = 100, the retained grid is exempt) has dropped older ones while an idle pool is pruned only
     // when it next receives a commitment; and a rewind below every checkpoint a pool retains resets
     // that pool (TreeTruncation::ResetToSubtreeRoots), which then lacks the old checkpoints the other
-    // pools keep. The floor is the larger of the pruning floor and the newest "oldest checkpoint" of
-    // any pool. (What each single scan adds is compared per pool in `apply`.)
+    // pools keep. The floor is the pruning floor, and after a rewind at least the newest "oldest
+    // prunable checkpoint" of any pool. Grid (retained) checkpoints are compared everywhere by clause
+    // (3); what each single scan adds is compared per pool in `apply`.
     let mut floor = pruning_floor(w, &cp_sets);
     if floor > 0 {
         outcomes.push("checkpoints:pool-at-capacity".into());
     }
     if m.rewinds > 0 {
-        for s in &cp_sets {
-            if let Some(lo) = s.iter().next() {
-                floor = floor.max(*lo);
+        // After a rewind the "at capacity" status is gone (the truncation removed newer checkpoints)
+        // but what the pool pruned while it was at capacity stays pruned, and a reset pool lacks
+        // everything below its re-creation: compare from the newest "oldest prunable checkpoint" of
+        // any pool (its oldest checkpoint when it holds grid checkpoints only).
+        for (i, p) in POOLS.iter().enumerate() {
+            let retained: BTreeSet<u32> = db::query_rows(w.db.conn(), &format!("SELECT checkpoint_id FROM {}_tree_retained_checkpoints", p.prefix())).iter().map(|r| r.parse::<u32>().unwrap()).collect();
+            let lo = cp_sets[i].iter().copied().find(|h| !retained.contains(h)).or_else(|| cp_sets[i].iter().next().copied());
+            if let Some(lo) = lo {
+                floor = floor.max(lo);
             }
         }
     }
@@ -976,8 +1210,21 @@ pub fn check_trees(w: &mut Wallet, cx: &Ctx, m: &Model) -> Result<Vec<String>, S
     }
     for (pi, p) in POOLS.into_iter().enumerate() {
         let ids: Vec<u32> = cp_sets[pi].iter().copied().collect();
-        let notes: Vec<&crate::universe::NoteInfo> = u.notes.iter().filter(|n| n.pool == p && n.owner != Owner::Foreign && mined.contains_key(&n.txid)).collect();
-        let npos: Vec<(u64, [u8; 32])> = notes.iter().map(|n| (n.position, n.cm)).collect();
+        let notes: Vec<&crate::universe::NoteInfo> = u.notes.iter().filter(|n| n.pool == p && n.owner != Owner::Foreign && mined_ids.contains(&n.id)).collect();
+        // The wallet builds a note's Merkle path at the position IT recorded for the note, so that
+        // is the position the path is asked for here (ground truth only where it recorded none).
+        let recorded: HashMap<String, Option<u64>> = db::query_rows(
+            w.db.conn(),
+            &format!("SELECT hex(t.txid), rn.{}, rn.commitment_tree_position FROM {}_received_notes rn JOIN transactions t ON t.id_tx = rn.transaction_id", idx_col(p), p.prefix()),
+        )
+        .iter()
+        .filter_map(|r| {
+            let f: Vec<&str> = r.split('|').collect();
+            (f.len() == 3).then(|| (format!("{}|{}", f[0].trim_matches('\''), f[1]), f[2].parse::<u64>().ok()))
+        })
+        .collect();
+        let wallet_pos = |n: &crate::universe::NoteInfo| recorded.get(&format!("{}|{}", txid_hex_le(&n.txid), n.output_index)).copied().flatten();
+        let npos: Vec<(u64, [u8; 32])> = notes.iter().map(|n| (wallet_pos(n).unwrap_or(n.position), n.cm)).collect();
         // with `witness_subset` on, roots are evaluated at the first two, the last two and two
         // evenly spread retained checkpoints (all of them when there are at most twelve; a root over a
         // shard of n fresh leaves costs n Sinsemilla / Pedersen hashes), and each
@@ -1028,13 +1275,14 @@ pub fn check_trees(w: &mut Wallet, cx: &Ctx, m: &Model) -> Result<Vec<String>, S
                 if !want.wit[ni][i] {
                     continue;
                 }
-                let unspent = !sp.get(&n.id).map(|v| v.iter().any(|t| mined.contains_key(t))).unwrap_or(false);
+                let unspent = !sp.get(&n.remine_of.unwrap_or(n.id)).map(|v| v.iter().any(|t| mined.contains_key(t))).unwrap_or(false);
                 match wits[ni][i] {
                     Some(r) if r == truth => outcomes.push(format!("witness:ok:{p:?}")),
                     Some(r) => {
                         return Err(format!(
-                            "{p:?} Merkle path of note at position {} (height {}) at checkpoint {h} yields root {} instead of {}; scanned={:?}",
+                            "{p:?} Merkle path of note at position {} (the wallet records position {:?}; mined at height {}) at checkpoint {h} yields root {} instead of {}; scanned={:?}",
                             n.position,
+                            wallet_pos(n),
                             n.height,
                             hex::encode(r),
                             hex::encode(truth),
@@ -1190,6 +1438,10 @@ pub struct SearchStats {
     pub capped: Option<String>,
     pub outcomes: BTreeMap<String, u64>,
     pub complete_states: u64,
+    /// transitions that led to a state already visited (its state checks are not repeated)
+    pub duplicates: u64,
+    /// evaluations of the state checks (one per distinct state, plus same-level races)
+    pub state_checks: u64,
 }
 
 pub struct Failure {
@@ -1254,6 +1506,10 @@ pub fn search(cx: &Ctx, checks: &[&StateCheck]) -> (SearchStats, Vec<Failure>) {
     let transitions = AtomicU64::new(0);
     let refused = AtomicU64::new(0);
     let skipped = AtomicU64::new(0);
+    let duplicates = AtomicU64::new(0);
+    let state_checks = AtomicU64::new(0);
+    let unkept = AtomicU64::new(0);
+    let mem_budget: u64 = std::env::var("VERIF_LEVEL_MEM_GB").ok().and_then(|s| s.parse::<u64>().ok()).unwrap_or(10) << 30;
     let mut depth = 0usize;
     while !frontier.is_empty() {
         stats.per_depth.push(frontier.len() as u64);
@@ -1270,11 +1526,15 @@ pub fn search(cx: &Ctx, checks: &[&StateCheck]) -> (SearchStats, Vec<Failure>) {
             break;
         }
         // work items
-        let items: Vec<(usize, Op)> = frontier.iter().enumerate().flat_map(|(i, n)| enabled(u, cfg, &n.model).into_iter().map(move |op| (i, op))).collect();
-        let results: Vec<Option<(u128, Node)>> = par_map(
+        let items: Vec<(usize, usize, Op)> = frontier.iter().enumerate().flat_map(|(i, n)| enabled(u, cfg, &n.model).into_iter().map(move |op| (i, op))).enumerate().map(|(idx, (i, op))| (idx, i, op)).collect();
+        // key -> smallest item index that produced it in this level (the deterministic representative)
+        let level_min: Mutex<HashMap<u128, usize>> = Mutex::new(HashMap::new());
+        let level_bytes = AtomicU64::new(0);
+        let seen_ref = &seen;
+        let results: Vec<Option<(u128, usize, Option<Node>)>> = par_map(
             &items,
                 || Pooled::get(u, cfg.retention),
-                |pw, (i, op)| {
+                |pw, (idx, i, op)| {
                     let w = pw.w.as_mut().unwrap();
                     if t0.elapsed().as_secs_f64() > cfg.wall_cap_s {
                         skipped.fetch_add(1, Ordering::Relaxed);
@@ -1311,6 +1571,27 @@ pub fn search(cx: &Ctx, checks: &[&StateCheck]) -> (SearchStats, Vec<Failure>) {
                             let tp = Instant::now();
                             let key = state_key(w, &model);
                             prof(2, tp);
+                            // A state already visited on an earlier level was checked there (the checks
+                            // are functions of exactly what the key is made of), and so was one that an
+                            // earlier item of this level produced; the item with the smallest index is
+                            // the level's representative whatever the thread timing.
+                            if seen_ref.contains(&key) {
+                                duplicates.fetch_add(1, Ordering::Relaxed);
+                                return Some((key, *idx, None));
+                            }
+                            {
+                                let mut g = level_min.lock().unwrap();
+                                match g.get(&key) {
+                                    Some(j) if *j < *idx => {
+                                        duplicates.fetch_add(1, Ordering::Relaxed);
+                                        return Some((key, *idx, None));
+                                    }
+                                    _ => {
+                                        g.insert(key, *idx);
+                                    }
+                                }
+                            }
+                            state_checks.fetch_add(1, Ordering::Relaxed);
                             let mut ok = true;
                             let mut outs = vec![];
                             for c in checks {
@@ -1335,10 +1616,17 @@ pub fn search(cx: &Ctx, checks: &[&StateCheck]) -> (SearchStats, Vec<Failure>) {
                             if !ok {
                                 return None;
                             }
+                            // memory budget for the snapshots of one level: beyond it the state is
+                            // checked and counted but not kept for expansion (reported as a cap)
+                            if level_bytes.load(Ordering::Relaxed) > mem_budget {
+                                unkept.fetch_add(1, Ordering::Relaxed);
+                                return Some((key, *idx, None));
+                            }
                             let tp = Instant::now();
                             let snap = Arc::new(db::snapshot(w.db.conn()));
+                            level_bytes.fetch_add(db::snapshot_bytes(&snap), Ordering::Relaxed);
                             prof(4, tp);
-                            Some((key, Node { snap, model, history: hist }))
+                            Some((key, *idx, Some(Node { snap, model, history: hist })))
                         }
                     }
                 },
@@ -1350,12 +1638,21 @@ pub fn search(cx: &Ctx, checks: &[&StateCheck]) -> (SearchStats, Vec<Failure>) {
         if sk > 0 {
             stats.capped = Some(format!("wall cap {}s reached while expanding depth {}: {} of {} transitions of that level not executed", cfg.wall_cap_s, depth, sk, items.len()));
         }
+        let level_min = level_min.into_inner().unwrap();
         let mut next = vec![];
-        for r in results.into_iter().flatten() {
-            if seen.insert(r.0) {
-                stats.states += 1;
-                next.push(r.1);
+        for (key, idx, node) in results.into_iter().flatten() {
+            if seen.contains(&key) || level_min.get(&key) != Some(&idx) {
+                continue;
             }
+            seen.insert(key);
+            stats.states += 1;
+            if let Some(n) = node {
+                next.push(n);
+            }
+        }
+        let uk = unkept.swap(0, Ordering::Relaxed);
+        if uk > 0 {
+            stats.capped = Some(format!("memory budget {} GiB for the snapshots of one level reached at depth {}: {} new states checked but not kept for expansion", mem_budget >> 30, depth + 1, uk));
         }
         // deterministic order regardless of thread scheduling
         next.sort_by(|a, b| a.history.cmp(&b.history));
@@ -1371,6 +1668,8 @@ pub fn search(cx: &Ctx, checks: &[&StateCheck]) -> (SearchStats, Vec<Failure>) {
     }
     stats.transitions = transitions.load(Ordering::Relaxed);
     stats.refused = refused.load(Ordering::Relaxed);
+    stats.duplicates = duplicates.load(Ordering::Relaxed);
+    stats.state_checks = state_checks.load(Ordering::Relaxed);
     stats.outcomes = outcomes.into_inner().unwrap();
     let mut f = failures.into_inner().unwrap();
     f.sort_by(|a, b| (a.history.len(), &a.history).cmp(&(b.history.len(), &b.history)));
